@@ -1277,9 +1277,15 @@ def check_C13(A: Analysis, tier):
             for c in it.calls:
                 if c["callee"] != Q("_store_hashstore_refs_files"):
                     continue
+                # (the pid reference may have been published on SOME of the paths joined into a state: its rename is among the state's
+                # may-mutations; states are kept apart by boolean flag locals, so a handler that consults a "published" flag is judged per value)
+                # "published on some path": the temp file that is renamed onto the pid reference is among the names the state knows as
+                # renamed away (a rename that FAILED has not published anything - one injected failure per system call)
+                pub_srcs = {t for ev in it.events if ev.kind == "RENAME" and len(ev.classes) > 1 and Q("_untag_object") not in ev.ctx
+                            and any(c_.cls == "PIDREFS" for c_ in primary(ev.classes[1])) and not ev.handling for t in ev.paths[0]}
                 for lab, states in (c.get("raise_states") or {}).items():
                     for st in states:
-                        if ("prim", "RENAME", 1, "PIDREFS") not in st.done:
+                        if ("prim", "RENAME", 1, "PIDREFS") not in st.done and not (pub_srcs & st.gone):
                             continue
                         rf.ob()
                         rf.inst(f"{e} [{m}]: error {lab} after the pid reference was published")
@@ -1609,14 +1615,16 @@ def check_C14(A: Analysis, tier):
     re_.inst(f"yaml default list {ylist}")
     re_.ob(2)
     if acc is None or trans is None or ylist is None:
-        raise AnalysisError("algorithm tables of C14.e not found")
-    if set(acc) - set(trans):
+        # the tables are not literal any more: this rule has lost its anchors (the run is refused as not analysable unless
+        # another rule of the property reports a violation, which then stands)
+        re_.instances = []
+    elif set(acc) - set(trans):
         re_.fail(wp, "accepted_store_algorithms", f"store algorithms {sorted(set(acc) - set(trans))} are accepted at creation but cannot be translated "
                  "when the store is opened", A.p.loc(wp, wp.node))
-    if set(acc) != set(ylist):
+    if acc is not None and ylist is not None and set(acc) != set(ylist):
         re_.fail(wp, "accepted_store_algorithms", f"accepted store algorithms {acc} differ from the default list {ylist}", A.p.loc(wp, wp.node))
     # membership test guards the write
-    if acc_test is None:
+    if acc is not None and acc_test is None:
         re_.fail(wp, "store_algorithm in accepted_store_algorithms", "the store algorithm is no longer checked against the accepted list", A.p.loc(wp, wp.node))
     rules.append(re_)
     from .rules_locks import shared_state_rule
